@@ -8,8 +8,8 @@
    other failure, redirect answers) the bytes it labels as starting at offset b are the blob's bytes from b;
    [op_ok B o]: the replies carried by op o are honest and a ReadAt offset is >= 0; [expected B off n] = bytes
    [off, min(off+n, size)) of the blob; [results c s os] = the result of every op of the history os. *)
-From Coq Require Import List ZArith NArith Bool Sorted.
-From SV Require Import Model.Region Model.BlobRead Model.BlobFn Proofs.Region Proofs.BlobRead Proofs.BlobFn.
+From Coq Require Import List ZArith NArith Bool Sorted Permutation.
+From SV Require Import Model.Region Model.BlobRead Model.BlobFn Proofs.Region Proofs.RegionCanon Proofs.BlobRead Proofs.BlobCanon Proofs.BlobFn.
 Import ListNotations.
 Open Scope Z_scope.
 
@@ -28,6 +28,27 @@ Theorem C06_total_size_counts_bytes :
     NoDup (points rs) /\ (forall x, In x (points rs) <-> covered rs x) /\ Z.of_nat (length (points rs)) = total_size rs.
 Proof. exact total_size_card. Qed.
 Print Assumptions C06_total_size_counts_bytes.
+
+(* Canonical form: a set satisfying the invariant is determined by the bytes it covers. *)
+Theorem C06_region_set_canonical :
+  forall a b, Good a -> Good b -> (forall x, covered a x <-> covered b x) -> a = b.
+Proof. exact good_unique. Qed.
+Print Assumptions C06_region_set_canonical.
+
+(* Go builds the request (and the single-flight-independent squash) by iterating over the allData MAP, i.e. in an
+   arbitrary order; the model inserts in walk order.  The Range header is the same for every order, in both modes. *)
+Theorem C06_requests_independent_of_map_order :
+  forall single regs regs', Forall wf_reg regs -> Permutation regs regs' ->
+    requests single regs = requests single regs'.
+Proof. exact requests_perm. Qed.
+Print Assumptions C06_requests_independent_of_map_order.
+
+(* ... and the fetchedRegionSet slice itself (not only its size) is the same for every order in which concurrent
+   committers add the same chunks. *)
+Theorem C06_fetched_set_independent_of_add_order :
+  forall cks cks', Forall wf_reg cks -> Permutation cks cks' -> fold_left add cks [] = fold_left add cks' [].
+Proof. exact fetched_set_perm. Qed.
+Print Assumptions C06_fetched_set_independent_of_add_order.
 
 (* bytesWriter: however the chunk stream is cut into successive Write calls (any two partitions of the same bytes),
    the buffer and the writer end up the same, and Write never panics. [bw_writes_effect] in Proofs/BlobRead.v gives the
@@ -126,6 +147,23 @@ Proof.
 Qed.
 Print Assumptions C06_fetched_set_any_interleaving.
 
+(* Cache() fan-out (prefetchChunkSize > chunkSize: one goroutine per piece).  A piece is two atomic sub-steps (its cache
+   walk, its fetchRange on the chunks that were missing THEN); [sc] is any interleaving of the sub-steps of all pieces,
+   also malformed ones.  From every state reachable by a history: the cache stays honest, the fetched set keeps its
+   invariant (so all the theorems above continue to apply to what follows), FetchedSize does not decrease, no panic.
+   (Histories in C06_read_at_exact / C06_fetched_size_* already range over CacheOp with arbitrary [sc].) *)
+Theorem C06_cache_fanout_any_interleaving :
+  forall c B os off sz sc scripts s' r q,
+    cfg_ok c B -> Forall (op_ok B) os -> Forall (resp_honest B) (concat scripts) ->
+    let s := exec c (init c) os in
+    step c s (CacheOp off sz sc scripts) = (s', r, q) ->
+    SIs c B s' /\ cache_honest B (s_cache s') /\ total_size (s_fetched s) <= total_size (s_fetched s') /\ r <> RPanic.
+Proof.
+  intros c B os off sz sc scripts s' r q Hc Hos Hh s.
+  exact (cache_fanout_spec c B s off sz sc scripts s' r q Hc (exec_SIs c B os Hc Hos) Hh).
+Qed.
+Print Assumptions C06_cache_fanout_any_interleaving.
+
 (* The offsets parseRange extracts from a Content-Range header are never negative (so the "0 <= b" clause of
    [body_honest] is no restriction on what a registry can send over HTTP). *)
 Theorem C06_content_range_offsets_nonneg :
@@ -135,7 +173,7 @@ Print Assumptions C06_content_range_offsets_nonneg.
 
 (* ---- non-vacuity ---- *)
 Definition exB : bytes := [1; 2; 3; 4; 5; 6; 7; 8; 9; 10]%N.
-Definition exC : cfg := mkCfg 10 4 0 false.
+Definition exC : cfg := mkCfg 10 4 0 false false.
 Definition exOps : list op :=
   [ ReadAt 1 (repeat 0%N 5) [R206S (0, 7) [1; 2; 3; 4; 5; 6; 7; 8]%N];
     Evict (0, 3);
@@ -174,12 +212,37 @@ Proof.
   - vm_compute. reflexivity.
 Qed.
 
+(* fan-out: 3 pieces of 8 bytes over a 30-byte blob; all walks first (every piece sees an empty cache, the pieces
+   meeting in a chunk both fetch it), fetches in the order 2, 0 (fails), 1; and the remote.Handler path *)
+Definition exB30 : bytes := map N.of_nat (seq 1 30).
+Example C06_nonvacuous_fanout_and_handler :
+  let c := mkCfg 30 4 9 false false in
+  let sl := fun b n => firstn n (skipn b exB30) in
+  let o := CacheOp 2 22 [(1, false); (0, false); (2, false); (2, true); (0, true); (1, true)]%nat
+             [[RFail]; [R206S (8, 19) (sl 8 12)%nat]; [R206S (16, 23) (sl 16 8)%nat]] in
+  let ch := mkCfg 30 4 0 false true in
+  let oh := ReadAt 5 (repeat 0%N 6) [RH 4 (sl 4 8)%nat] in
+  cfg_ok c exB30 /\ op_ok exB30 o /\
+  (let '(s', r, q) := step c (init c) o in
+   r = RErr /\ s_fetched s' = [(8, 23)] /\
+   q = [QData [(16, 23)]; QData [(0, 11)]; QData [(8, 19)]]) /\
+  cfg_ok ch exB30 /\ op_ok exB30 oh /\
+  (let '(s', r, q) := step ch (init ch) oh in r = ROk [6; 7; 8; 9; 10; 11]%N /\ q = [QFetch (4, 11)]).
+Proof.
+  intros c sl o ch oh. split; [split; reflexivity|]. split.
+  - split; [|exact I]. simpl. repeat constructor; try discriminate;
+      try (exists 12%nat; reflexivity); try (exists 8%nat; reflexivity).
+  - split; [vm_compute; repeat split; reflexivity|]. split; [split; reflexivity|]. split.
+    + split; [|simpl; discriminate]. simpl. repeat constructor; try discriminate. exists 8%nat; reflexivity.
+    + vm_compute. split; reflexivity.
+Qed.
+
 (* the assumption "a copy from the cache either misses or delivers the whole chunk" cannot be dropped: if the cache
    hands a follower a chunk cut short (a cache reader failing in mid-copy), the retry re-uses the half-advanced
    bytesWriter and ReadAt reports success with wrong bytes.  (Not reachable with cache/cache.go: see the report.) *)
 Example C06_short_cache_copy_breaks_exactness :
   let B := [10; 11; 12; 13]%N in
-  fst (read_conc (mkCfg 4 4 0 false) 0 (repeat 0%N 4) (fun _ => None)
+  fst (read_conc (mkCfg 4 4 0 false false) 0 (repeat 0%N 4) (fun _ => None)
          [Follow (fun _ => Some [10; 11]%N); Lead false [R206S (0, 3) B]])
   = ROk [10; 11; 10; 11]%N.
 Proof. vm_compute. reflexivity. Qed.
